@@ -270,6 +270,12 @@ func (c *Client) Get(ctx context.Context, k client.ObjectKey, o client.Object, _
 	var m map[string]any
 	if seq := c.readSeq(gvk.GroupKind(), out, aux); seq >= 0 {
 		m, err = c.Store.GetAt(seq, gvk, k.Namespace, k.Name)
+		if err != nil && c.Sim != nil {
+			if _, e2 := c.Store.Get(gvk, k.Namespace, k.Name); e2 == nil {
+				c.Sim.Probe("lagging-cache-misses-existing-object")
+				c.Sim.Hot(ctx)
+			}
+		}
 	} else {
 		m, err = c.Store.Get(gvk, k.Namespace, k.Name)
 	}
